@@ -65,14 +65,25 @@ def releaseOf (t : List FieldFact) (n : String) : Bool :=
 def releaseKind (t : List FieldFact) (n : String) : Assign :=
   match findFact t n with | some f => f.release | none => .none
 
+/-- either side wipes the field: a pooled context is zero when new and wiped when released, so for a field
+    whose wiped value is its zero value it does not matter whether `Reset` or `release` does it -/
+def releaseZero (t : List FieldFact) (n : String) : Bool := releaseKind t n == .zero
+
+def wipedOf (t : List FieldFact) (n : String) : Bool := resetOf t n || releaseZero t n
+
+/-- The digest says what a handler can rely on when it starts. Fields whose `Reset` value is the zero value
+    (`baseURI`, `indexHandler`, `matched`) and the fields `release` empties (`route`, `bind`, `redirect`,
+    `viewBindMap`) may be wiped on either side; `indexRoute` (-1) and the request-derived fields must be
+    assigned by `Reset`. A flash slice that `release` sets to nil has no leftovers: as good as the wipe. -/
 def RFacts.ofTables (ctx red : List FieldFact) (lc : Lifecycle) : RFacts :=
-  { rFasthttp := resetOf ctx "fasthttp", rBaseURI := resetOf ctx "baseURI", rPathOriginal := resetOf ctx "pathOriginal",
+  { rFasthttp := resetOf ctx "fasthttp", rBaseURI := wipedOf ctx "baseURI", rPathOriginal := resetOf ctx "pathOriginal",
     rPath := resetOf ctx "path", rDetectionPath := resetOf ctx "detectionPath", rTreePathHash := resetOf ctx "treePathHash",
-    rIndexRoute := resetOf ctx "indexRoute", rIndexHandler := resetOf ctx "indexHandler", rMethodInt := resetOf ctx "methodInt",
-    rMatched := resetOf ctx "matched",
-    lRoute := releaseOf ctx "route", lBind := releaseOf ctx "bind", lRedirect := releaseOf ctx "redirect",
-    lViewBind := releaseOf ctx "viewBindMap", lFlash := releaseKind ctx "flashMessages", lFasthttp := releaseOf ctx "fasthttp",
-    dMessages := releaseKind red "messages", dStatus := releaseOf red "status", lc := lc }
+    rIndexRoute := resetOf ctx "indexRoute", rIndexHandler := wipedOf ctx "indexHandler", rMethodInt := resetOf ctx "methodInt",
+    rMatched := wipedOf ctx "matched",
+    lRoute := wipedOf ctx "route", lBind := wipedOf ctx "bind", lRedirect := wipedOf ctx "redirect",
+    lViewBind := wipedOf ctx "viewBindMap", lFlash := releaseKind ctx "flashMessages", lFasthttp := releaseOf ctx "fasthttp",
+    dMessages := releaseKind red "messages", dStatus := releaseOf red "status",
+    lc := { lc with flashDecodeWipes := lc.flashDecodeWipes || releaseKind ctx "flashMessages" == .zero } }
 
 /-! ### requests -/
 
